@@ -4,6 +4,7 @@ import (
 	"bytes"
 	"fmt"
 	"strings"
+	"time"
 	"unsafe"
 
 	"verif.local/simrt"
@@ -293,6 +294,10 @@ func usesOpts(fn int) bool { return fn == FnApplyWithOptions || fn == FnApplyInd
 
 const defaultBudget = 50_000_000
 
+// AbortAt, when set, makes running scenarios stop between calls once the wall clock passes it
+// (set by the minimiser around candidate executions; never during the search itself).
+var AbortAt time.Time
+
 func (sc *Scenario) budget() int64 {
 	if sc.Cfg.Budget > 0 {
 		return sc.Cfg.Budget
@@ -309,7 +314,7 @@ func (sc *Scenario) budgetFor(inputBytes int) int64 {
 		return sc.Cfg.Budget
 	}
 	n := int64(inputBytes)
-	b := int64(10_000_000) + 40*n*n
+	b := int64(3_000_000) + 40*n*n
 	if b > 4_000_000_000 {
 		b = 4_000_000_000
 	}
@@ -414,9 +419,19 @@ func (rn *runner) execCalls(ts *taskState, calls []Call, want []pristinePair) {
 		if usesSlot(c.Fn) && ts.slotSrc[c.Slot] >= 0 {
 			insz += len(sc.Bufs[ts.slotSrc[c.Slot]])
 		}
-		w.BeginCall(c.ID, uint32(c.Fn), src, sc.budgetFor(insz))
+		bud := sc.budgetFor(insz)
+		w.BeginCall(c.ID, uint32(c.Fn), src, bud)
 		o := invoke(rn.api, c, args)
 		o.Steps = w.EndCall(o.Failed(), o.Digest())
+		if pm := o.Steps * 1000 / bud; pm > ts.probes["max_budget_used_permille"] {
+			ts.probes["max_budget_used_permille"] = pm
+		}
+		if !AbortAt.IsZero() && time.Now().After(AbortAt) {
+			// minimisation time box: give up on this candidate (it then counts as "does not reproduce")
+			ts.probes["run_aborted_by_time_box"]++
+			ts.out = append(ts.out, o)
+			return
+		}
 		if sc.Replay {
 			if !sc.Lenient && (src.Exhausted > 0 || src.Clamped > 0) {
 				ts.probes["replay_diverged"]++
@@ -656,6 +671,12 @@ func Run(sc *Scenario) *RunResult {
 		ts.checkRetained(tname, "the end of the run")
 		res.Violations = append(res.Violations, ts.viol...)
 		for k, v := range ts.probes {
+			if strings.HasPrefix(k, "max_") {
+				if v > res.Probes[k] {
+					res.Probes[k] = v
+				}
+				continue
+			}
 			res.Probes[k] += v
 		}
 		res.Outcomes = append(res.Outcomes, ts.out)
